@@ -207,21 +207,35 @@ where
             Some(i) if i < first_chal_any && (E.get(i).map(|s| s.kind) == Some("Append") || EA.get(i).map(|s| s.kind) == Some("Append")) => o.count("separator:phase", 1),
             other => o.violate("no-phase-separator", format!("a one-phase and a two-phase run of the same circuit are not separated before the first challenge (first difference: {:?})", other), ctxj(json!({}))),
         }
-        // (iii) the padded size is absorbed between w and the first round challenge
-        let mut p3 = prog.clone();
-        let extra_gates = base.st.model.padded() + 1 - base.st.model.gates();
-        let ins = p3.ops.iter().position(|op| matches!(op, Op::Randomized(_))).unwrap_or(p3.ops.len());
-        for _ in 0..extra_gates {
-            p3.ops.insert(ins, Op::AllocMul { l: crate::dsl::Val::Lit(crate::sc::Sc::I(2)), r: crate::dsl::Val::Lit(crate::sc::Sc::I(3)) });
-        }
-        let alt = crate::interp::cur::verify_program::<G>(&p3, &po.vs, proof, &env.pc, &env.bp);
-        let EA = main_shapes(&alt.log);
+        // (iii) the padded size: observed on ACCEPTED runs only (a verifier may legitimately stop early
+        // on a proof of the wrong shape). The absorbs between w and the first round's L (or the end of
+        // the run when there are no rounds) are recorded per padded size; after all cases the run
+        // requires them to be equal within one padded size and different across padded sizes.
         let w_idx = chals[n_p2 + 4];
-        let first_round = chals.get(n_p2 + 5).copied().unwrap_or(E.len());
-        match first_diff(&E, &EA) {
-            Some(i) if i > w_idx && i < first_round && E[i].kind == "Append" => o.count("separator:size", 1),
-            other => o.violate("no-size-separator", format!("verifying against a circuit of another padded size first differs at {:?}, not at an absorb between w (event {}) and the first round (event {})", other, w_idx, first_round), ctxj(json!({}))),
+        let end = if k == 0 {
+            E.len()
+        } else {
+            // absorption position of L[0]: first differing event when only L[0] is altered
+            let mut m1 = hm.clone();
+            m1.ipp.L[0] = (hm.ipp.L[0].into_group() + env.pc.B.into_group()).into_affine();
+            match m1.to_real() {
+                Some(real) => {
+                    let vo = crate::interp::cur::verify_program::<G>(&prog, &po.vs, &real, &env.pc, &env.bp);
+                    first_diff(&E, &main_shapes(&vo.log)).unwrap_or(w_idx + 1)
+                }
+                None => w_idx + 1,
+            }
+        };
+        let mut sep = String::new();
+        for s in E.iter().take(end.min(E.len())).skip(w_idx + 1) {
+            if s.kind == "Append" {
+                sep.push_str(&crate::sc::hex(&s.label));
+                sep.push(':');
+                sep.push_str(&crate::sc::hex(&s.data));
+                sep.push(';');
+            }
         }
+        o.sig(format!("sizesep|{}|{}|{}", env.curve, base.st.model.padded(), sep));
     }
     // ---- elements and the first challenge that must come after each
     let mut elems: Vec<Elem<G>> = vec![];
@@ -399,6 +413,38 @@ pub fn run(ctx: &Ctx) -> i32 {
         for cu in CURVES {
             crate::on_curve!(cu, G => agg.merge(run_curve::<G>(ctx, cu, None)));
         }
+    }
+    // ---- size separator, decided over all accepted runs (see (iii) in run_case)
+    if ctx.replay.is_none() {
+        use std::collections::{BTreeMap, BTreeSet};
+        let mut by_size: BTreeMap<(String, String), BTreeSet<String>> = BTreeMap::new();
+        for s in agg.sigs.iter().filter(|s| s.starts_with("sizesep|")) {
+            let p: Vec<&str> = s.splitn(4, '|').collect();
+            if p.len() == 4 {
+                by_size.entry((p[1].to_string(), p[2].to_string())).or_default().insert(p[3].to_string());
+            }
+        }
+        let mut seen: BTreeMap<(String, String), String> = BTreeMap::new();
+        let mut sizes = 0u64;
+        for ((curve, padded), seps) in &by_size {
+            sizes += 1;
+            if seps.len() != 1 {
+                // the absorbs between w and the first round depend on something other than the padded size:
+                // not a violation of the property by itself, but then this monitor cannot decide
+                agg.inconclusive.push(format!("absorbs between w and the first round are not a function of the padded size ({} {}): {} variants", curve, padded, seps.len()));
+                continue;
+            }
+            let sep = seps.iter().next().unwrap().clone();
+            if sep.is_empty() {
+                agg.viols.push((serde_json::json!({"curve": curve, "padded": padded}), Viol { sig: "no-size-separator".into(), what: format!("nothing is absorbed between w and the first inner-product round (padded size {} on {})", padded, curve), detail: serde_json::json!({}) }));
+                continue;
+            }
+            if let Some(other) = seen.insert((curve.clone(), sep.clone()), padded.clone()) {
+                agg.viols.push((serde_json::json!({"curve": curve, "padded": [other, padded]}), Viol { sig: "no-size-separator".into(), what: format!("runs of padded size {} and {} on {} absorb identical data between w and the first round: the size is not separated", other, padded, curve), detail: serde_json::json!({}) }));
+            }
+        }
+        agg.counters.insert("separator:size (padded sizes with a distinct, size-determined absorb before the first round)".into(), sizes);
+        agg.sigs.retain(|s| !s.starts_with("sizesep|"));
     }
     let (me, md) = if ctx.replay.is_some() { (1, 0) } else { (2000, 60) };
     finish(
